@@ -4,6 +4,7 @@ import (
 	"bytes"
 	"context"
 	"errors"
+	"fmt"
 	"io"
 	"net/http"
 	"sync"
@@ -286,6 +287,15 @@ func (hrw *httpReadWriter) Write(ctx context.Context, rpc *Rpc) error {
 	}
 
 	resp.Body.Close()
+
+	// The far end answers 200 only once it has handed the envelope to a reader.
+	// Anything else (400: it cannot take this envelope; 503: the connection the
+	// request was parked on went away) means the envelope was not delivered: tell
+	// the caller instead of reporting success. The connection itself is fine, so
+	// it stays registered.
+	if resp.StatusCode != http.StatusOK {
+		return fmt.Errorf("goat over http: peer answered %s", resp.Status)
+	}
 
 	return nil
 }
